@@ -412,7 +412,7 @@ def main(argv=None):
                    "C02: Fq operations are exact (layer below)", "clang -O1 vs shipped -Ofast (T11)"]
     chk.assumptions = ["Fq layer (Fp<384>::add/subtract/multiply/square/multiply2/negate/copy/is_zero/equal, fp_inverse) behaves as the field Fq: proved by C02/C03"]
     # lower layers whose specifications this check relies on: their obligations are part of this check's claim (framework.Check.include)
-    for dep in ['C02', 'C18']:
+    for dep in ['C02', 'C03', 'C18']:
         chk.include(dep)
     chk.run()
     chk.finish()
